@@ -24,6 +24,7 @@ type Mutant struct {
 	Old    string   `json:"old,omitempty"`
 	New    string   `json:"new,omitempty"`
 	Edits  []Edit   `json:"edits,omitempty"`
+	Rename []Edit   `json:"rename,omitempty"` // old -> new in every non-test .go file of the root package (all occurrences)
 	Patch  string   `json:"patch,omitempty"` // path relative to /verif
 	Expect []string `json:"expect"`          // properties that must report a violation ([] for benign)
 	Rules  []string `json:"rules,omitempty"` // rules expected to fire (informational)
@@ -121,6 +122,27 @@ func applyMutant(m Mutant, verif, dir string) (string, bool) {
 		}
 		return "", true
 	}
+	for _, r := range m.Rename {
+		files, _ := filepath.Glob(filepath.Join(dir, "*.go"))
+		n := 0
+		for _, f := range files {
+			if strings.HasSuffix(f, "_test.go") {
+				continue
+			}
+			b, err := os.ReadFile(f)
+			if err != nil {
+				return err.Error(), false
+			}
+			s := string(b)
+			n += strings.Count(s, r.Old)
+			if err := os.WriteFile(f, []byte(strings.ReplaceAll(s, r.Old, r.New)), 0o644); err != nil {
+				return err.Error(), false
+			}
+		}
+		if n == 0 {
+			return "rename anchor " + r.Old + " not found (tree changed)", false
+		}
+	}
 	edits := m.Edits
 	if m.File != "" {
 		edits = append(edits, Edit{m.File, m.Old, m.New})
@@ -158,6 +180,15 @@ func runMutant(m Mutant, repo, verif string, props []string) mutResult {
 	if why, ok := applyMutant(m, verif, dir); !ok {
 		res.Status, res.Detail = "skipped", why
 		return res
+	}
+	if m.Benign {
+		cmd := exec.Command("go", "build", "./...")
+		cmd.Dir = dir
+		cmd.Env = append(os.Environ(), "GOFLAGS=-mod=mod")
+		if out, err := cmd.CombinedOutput(); err != nil {
+			res.Status, res.Detail = "skipped", "benign rewrite does not compile: "+strings.TrimSpace(string(out))
+			return res
+		}
 	}
 	self, _ := os.Executable()
 	fired := map[string]bool{}
